@@ -18,7 +18,7 @@ import (
 func (c *Conn) serverHandshakeAutoSwitch() error {
 	// If this is the first server handshake, we generate a random key to
 	// encrypt the tickets with.
-	c.config.serverInitOnce.Do(func() { c.config.serverInit(nil) })
+	c.config.ensureTicketKeys(nil)
 
 	msg, err := c.readHandshake()
 	if err != nil {
@@ -84,7 +84,7 @@ func processClientHelloGM(c *Conn, hs *serverHandshakeStateGM) (isResume bool, e
 			_ = c.sendAlert(alertInternalError)
 			return false, err
 		} else if newConfig != nil {
-			newConfig.serverInitOnce.Do(func() { newConfig.serverInit(c.config) })
+			newConfig.ensureTicketKeys(c.config)
 			c.config = newConfig
 		}
 	}
@@ -298,7 +298,7 @@ func processClientHello(c *Conn, hs *serverHandshakeState) (bool, error) {
 			_ = c.sendAlert(alertInternalError)
 			return false, err
 		} else if newConfig != nil {
-			newConfig.serverInitOnce.Do(func() { newConfig.serverInit(c.config) })
+			newConfig.ensureTicketKeys(c.config)
 			c.config = newConfig
 		}
 	}
